@@ -258,6 +258,19 @@ theorem mpz_gcd_small_alloc_safe_partial (s : St) (g u v : Nat) (hs : s.ok = tru
     · obtain ⟨R, W⟩ := gcdOne_refines s g u v hs hg hu hv (by omega) (by omega) (by omega)
       exact ⟨_, R.safe W, by simp [Mpz.toInt, val]⟩
 
+/-- mpz_gcd (mpz/gcd.c), general arm, the TMP side (gcd.c:82-95 and 97-110, `stripLow`): for every operand the copy without its
+    low zero limbs — shifted right by its low zero bits through mpn_rshift, or copied — is exactly as long as the
+    `TMP_ALLOC_LIMBS (usize - zero_limbs)` block it is stored to. -/
+theorem stripLow_fits (U : List Nat) : (stripLow U).2.2.2.2 = true := by
+  unfold stripLow
+  simp only []
+  split
+  · simp [Buf.write, Buf.new, Mpir.rshift, Mem.rshiftGo_length]
+  · simp [Buf.write, Buf.new]
+
+-- 3 * 2^127 as [0, 3 * 2^63]: one zero limb, 63 zero bits, the copy [3] in a block of one limb
+example : stripLow [0, 3 * 2 ^ 63] = (1, 63, ⟨1, [3]⟩, 1, true) := by decide
+
 /-- mpz_gcd (mpz/gcd.c), general arm, the destination side (gcd.c:133-154, `gcdTail`): for every limb list `G` that mpn_gcd
     may have left in TMP space (non-empty, limbs), every count of common zero limbs and every count `g_zero_bits ≤ 63` of common
     zero bits, every allocation of g: `MPZ_REALLOC (g, gsize)` with `gsize = vsize + g_zero_limbs + ((vp[vsize-1] >> (64 -
